@@ -171,7 +171,7 @@ func parseParamValue(
 	input string, executeCommandSubstitution bool,
 ) ([]paramPair, error) {
 	paramRegex := regexp.MustCompile(
-		`(?:([^\s=]+)=)?("(?:\\"|[^"])*"|` + "`(" + `?:\\"|[^"]*)` + "`" + `|[^"\s]+)`,
+		`(?:([^\s="` + "`" + `]+)=)?("(?:\\"|[^"])*"|` + "`(" + `?:\\"|[^"]*)` + "`" + `|[^"\s]+)`,
 	)
 	matches := paramRegex.FindAllStringSubmatch(input, -1)
 
@@ -183,7 +183,9 @@ func parseParamValue(
 
 		if strings.HasPrefix(value, `"`) || strings.HasPrefix(value, "`") {
 			if strings.HasPrefix(value, `"`) {
-				value = strings.Trim(value, `"`)
+				// Strip the surrounding quotes only: a value may itself end
+				// (or begin) with an escaped quote.
+				value = value[1 : len(value)-1]
 				value = strings.ReplaceAll(value, `\"`, `"`)
 			}
 
